@@ -11,10 +11,13 @@ mod c08;
 mod c09;
 mod c10;
 mod c11;
+mod c12;
+mod c12b;
 mod c17;
 mod c18;
 mod wire;
 mod forge;
+mod prim;
 mod msgcfg;
 
 fn arg(args: &[String], name: &str, default: &str) -> String {
@@ -40,6 +43,7 @@ fn main() {
         "c14" => c14::run(&cases, &out, &tier, seed),
         "c10" => c10::run(&cases, &out, &tier, seed),
         "c11" => c11::run(&cases, &out, &tier, seed, "c11"),
+        "c12" => c12::run(&cases, &out, &tier, seed),
         "c13" => c11::run(&cases, &out, &tier, seed, "c13"),
         "c02" => c02::run(&cases, &out, &tier, seed),
         "c05" => c05::run(&cases, &out, &tier, seed),
